@@ -9,7 +9,7 @@ import IronCalc.User.WF
   Command tokens: `U` `R` `F` `name:<hex>` `tz:<hex>` `loc:<hex>` `fr:<s>:<n>` `fc:<s>:<n>`
   `grid:<s>:<0|1>` `color:<s>:<hex>` `hide:<s>` `unhide:<s>` `rename:<s>:<hex>` `newsheet`
   `delsheet:<s>` `cw:<s>:<c1>:<c2>:<w>` `rh:<s>:<r1>:<r2>:<h>` `ch:<s>:<c1>:<c2>:<0|1>`
-  `rhid:<s>:<r1>:<r2>:<0|1>` `mr:<s>:<row>:<count>:<delta>`.
+  `rhid:<s>:<r1>:<r2>:<0|1>` `mr:<s>:<row>:<count>:<delta>` `mc:<s>:<column>:<count>:<delta>` `in:<s>:<row>:<col>:<hex text>` `clr:<s>:<row>:<col>:<w>:<h>`.
 -/
 open IronCalc.User
 namespace Driver
@@ -50,6 +50,12 @@ def parseCmd (tok : String) : Option (Cmd Op) :=
     do some (.op (.setRowsHidden (← s.toNat?) (← a.toInt?) (← b.toInt?) (← parseBool v)))
   | ["mr", s, r, n, d] =>
     do some (.op (.moveRows (← s.toNat?) (← r.toInt?) (← n.toInt?) (← d.toInt?)))
+  | ["in", s, r, c, h] =>
+    do some (.op (.setPlainInput (← s.toNat?) (← r.toInt?) (← c.toInt?) (← hexDecode h)))
+  | ["clr", s, r, c, w, h] =>
+    do some (.op (.rangeClearContents (← s.toNat?) (← r.toInt?) (← c.toInt?) (← w.toInt?) (← h.toInt?)))
+  | ["mc", s, r, n, d] =>
+    do some (.op (.moveColumns (← s.toNat?) (← r.toInt?) (← n.toInt?) (← d.toInt?)))
   | _ => none
 
 /-- the integers of `a..=b` that lie in `1..=hi`, at most 64 of them -/
@@ -66,6 +72,9 @@ def touched (cs : List (Cmd Op)) : List Int × List Int :=
     | .op (.setColumnsHidden _ a b _) => (acc.1 ++ rangeIn a b LAST_COLUMN, acc.2)
     | .op (.setRowsHeight _ a b _) => (acc.1, acc.2 ++ rangeIn a b LAST_ROW)
     | .op (.setRowsHidden _ a b _) => (acc.1, acc.2 ++ rangeIn a b LAST_ROW)
+    | .op (.setPlainInput _ r c _) => (acc.1 ++ rangeIn c c LAST_COLUMN, acc.2 ++ rangeIn r r LAST_ROW)
+    | .op (.moveColumns _ r n d) =>
+      (acc.1 ++ rangeIn (r + min d 0 - 12) (r + max n 0 + max d 0 + 12) LAST_COLUMN, acc.2)
     | .op (.moveRows _ r n d) =>
       -- everything a move can touch: the block, the landing zone and a margin for skipped hidden rows
       (acc.1, acc.2 ++ rangeIn (r + min d 0 - 12) (r + max n 0 + max d 0 + 12) LAST_ROW)
@@ -88,7 +97,11 @@ def sheetStr (cols rows : List Int) (s : Sheet) : String :=
   let rs := rows.filterMap fun r =>
     let v := s.rowAt r
     if v == RowView.default then none else some s!"{r}:{v.height}:{b01 v.hidden}"
-  s!"S[{hexEncode s.name},{s.id},{umStateStr s.state},{hexEncode s.color},{s.frozenRows},{s.frozenCols},g{b01 s.grid},C\{{" ".intercalate cs}},R\{{" ".intercalate rs}}]"
+  let xs := rows.flatMap fun r => cols.filterMap fun c =>
+    match s.cellAt r c with
+    | some t => if t.isEmpty then none else some s!"{r},{c}={hexEncode t}"
+    | none => none
+  s!"S[{hexEncode s.name},{s.id},{umStateStr s.state},{hexEncode s.color},{s.frozenRows},{s.frozenCols},g{b01 s.grid},C\{{" ".intercalate cs}},R\{{" ".intercalate rs}},X\{{" ".intercalate xs}}]"
 
 def bookStr (cols rows : List Int) (b : Book) : String :=
   s!"n={hexEncode b.name};l={hexEncode b.locale};t={hexEncode b.tz};" ++
